@@ -1,7 +1,7 @@
 (* C01 — By-key write hits exactly the designated leaf; failed access changes nothing.
    Only pinned statements, [exact] proofs and [Print Assumptions]. *)
 From Coq Require Import List NArith ZArith.
-From MC Require Import Str Packed Tree Spec Tree_proofs.
+From MC Require Import Str Packed Tree Spec Tree_proofs NoPanic Transcode_proofs Frame_proofs Equiv_proofs.
 Import ListNotations.
 
 (* For every schema, value, oracle, codec, key source and operation: either the tree is
@@ -34,6 +34,55 @@ Theorem C01_read_pure :
     writes o = false -> run wr rd orc o t v k = (r, v', lg) -> v' = v.
 Proof. exact read_pure. Qed.
 
+(* "the one leaf that the key designates": the value path [vpath t k] is a function of the type and
+   the key alone (products consume one index per level; enums, Option and the other wrappers are
+   transparent).  Every operation touches at most the leaf stored there: a write replaces exactly it
+   with what the codec made of its old value, a read reads exactly it, anything else leaves the tree
+   and every leaf untouched. *)
+Theorem C01_framed_unfold :
+  forall (L : Type) (wr : L -> leafres L) (P : option (list nat)) (v : value L) r v' lg,
+  framed L wr P v (r, v', lg) <->
+  ((exists path old y, P = Some path /\ vget v path = Some old /\ wr old = LOk y /\
+      v' = vset v path (VLeaf y) /\ filter (touch L) lg = [EvWrite y]) \/
+   (exists path old, P = Some path /\ vget v path = Some old /\ v' = v /\ filter (touch L) lg = [EvRead old]) \/
+   (v' = v /\ filter (touch L) lg = [])).
+Proof. intros. apply iff_refl. Qed.
+
+Theorem C01_designated_leaf :
+  forall (L : Type) (wr : L -> leafres L) (rd : L -> bool) (orc : oracle) (o : op) (t : node)
+         (v : value L) (k : keys),
+    framed L wr (vpath t k) v (run wr rd orc o t v k).
+Proof. exact run_designated. Qed.
+
+(* a write stores y; any later read, by any operation, through any key designating the same leaf
+   returns y *)
+Theorem C01_write_then_read :
+  forall (L : Type) (wr : L -> leafres L) (rd : L -> bool) (orc : oracle) (o1 o2 : op) (t : node)
+         (v : value L) (k1 k2 : keys) r1 v1 lg1 r2 v2 lg2 (y x : L),
+    run wr rd orc o1 t v k1 = (r1, v1, lg1) -> In (EvWrite y) lg1 ->
+    vpath t k2 = vpath t k1 ->
+    run wr rd orc o2 t v1 k2 = (r2, v2, lg2) -> In (EvRead x) lg2 -> x = y.
+Proof. exact write_then_read. Qed.
+
+(* equivalent keys: any two keys (names, indices, paths, packed, chains) that reach a node with the
+   same callback trace (i.e. that transcode to the same index tuple) give identical outcomes (result,
+   new tree, call log) for every operation, state and callback behaviour *)
+Theorem C01_equivalent_keys :
+  forall (L : Type) (wr : L -> leafres L) (rd : L -> bool) (orc : oracle) (o : op) (t : node)
+         (k1 k2 : keys) r1 r2 calls, NoPanic.wf t -> small t ->
+    trav nofail t k1 [] = (r1, calls) -> reached r1 ->
+    trav nofail t k2 [] = (r2, calls) -> reached r2 ->
+    forall v : value L, run wr rd orc o t v k1 = run wr rd orc o t v k2.
+Proof. exact equivalent_keys. Qed.
+
+Theorem C01_index_form :
+  forall (L : Type) (wr : L -> leafres L) (rd : L -> bool) (orc : oracle) (o : op) (t : node)
+         (k : keys) pre r calls, NoPanic.wf t -> small t ->
+    trav nofail t k pre = (r, calls) -> reached r ->
+    exists new, calls = new ++ pre /\
+      forall v : value L, run wr rd orc o t v k = run wr rd orc o t v (KIter (map idx_key (rev new))).
+Proof. exact run_index_form. Qed.
+
 (* non-vacuity: a successful write, a rejected-by-validator write (leaf updated) and a failed one *)
 Definition vattrs : attrs := {| a_deny := fun _ => None; a_get := None; a_getmut := None; a_val := Some 2%N |}.
 Definition ex_t : node := NHet HStruct (Named [[97%N]; [98%N]]) [(no_attrs, NHom 2 (NLeaf KLeaf)); (vattrs, NLeaf KLeaf)].
@@ -48,7 +97,20 @@ Example C01_ex :
     = (RErr (Inner 1), ex_v, []).
 Proof. repeat split. Qed.
 
+Example C01_ex_designated :
+  vpath ex_t (KIter [KStr [97%N]; KInt 1]) = Some [0; 1] /\
+  vpath ex_t (KIter [KInt 0; KInt 1]) = Some [0; 1] /\
+  vpath ex_t (KIter [KStr [98%N]]) = Some [1] /\
+  vpath ex_t (KIter [KStr [99%N]]) = None /\
+  vget ex_v [0; 1] = Some 2%N.
+Proof. repeat split. Qed.
+
 Print Assumptions C01_write_frame.
 Print Assumptions C01_write_implies_ok_or_invalid.
 Print Assumptions C01_failed_access_unchanged.
 Print Assumptions C01_read_pure.
+Print Assumptions C01_framed_unfold.
+Print Assumptions C01_designated_leaf.
+Print Assumptions C01_write_then_read.
+Print Assumptions C01_equivalent_keys.
+Print Assumptions C01_index_form.
